@@ -11,9 +11,12 @@ package main
 //	     epoch / period before the dispatch point succeeded, every in-committee duty of that assignment
 //	     due at the tick's slot is dispatched (in every role of the handler)                  [honest]
 //
-// honest = the hypothesis of theorems C16_*_assignment / C16_*_exactly_once: ticks are consecutive
-// slots, every reorg / indices event between tick t and tick t+1 carries slot t or t+1, assignments have
-// one duty per (slot, validator) (per validator for the sync committee).
+// honest = the hypothesis of theorems C16_*_exactly_once (coq/Scheduler/Spec.v, honest_from): ticks are
+// consecutive slots, the first one not before the start slot; every reorg / indices event between tick t
+// and tick t+1 carries slot t or t+1 (any slot before the first tick); assignments have one duty per
+// (slot, validator) (per validator for the sync committee).  In addition the monitor stops checking
+// (b3)/(c) of a sync committee case once the handler's clock is beyond the tick's period, because the
+// period of a fetch can then not be recovered from the epoch passed to the beacon node.
 
 import "fmt"
 
@@ -36,6 +39,7 @@ type monitor struct {
 	why      string
 	lastTick uint64
 	haveTick bool
+	initNow  uint64
 	trace    []attempt
 	events   []evrec
 	seen     map[[3]uint64]bool
@@ -146,9 +150,14 @@ func (m *monitor) step(o op, obs []obsv) (viol []string) {
 	at := m.n
 	// ---- honesty of the schedule (hypothesis of the (b3)/(c) theorems)
 	switch o.kind {
+	case "INIT":
+		m.initNow = o.now
 	case "TICK":
 		if m.haveTick && o.slot != m.lastTick+1 {
 			m.dishonest("tick gap")
+		}
+		if !m.haveTick && m.cfg.kind != 'A' && o.slot < m.initNow {
+			m.dishonest("first tick before the start slot")
 		}
 	case "REORG":
 		if m.haveTick && o.slot != m.lastTick && o.slot != m.lastTick+1 {
